@@ -182,3 +182,24 @@ def ndjson(path):
             if line:
                 out.append(json.loads(line))
     return out
+
+
+def table(extends, expr, defs='', name='Gen', timeout=600, wd=None, heap='4g'):
+    """Evaluate the TLA+ set-of-records expression `expr` (in a module that
+    EXTENDS `extends`) with TLC and return it as a list of dicts.  The values
+    come from TLC, never from a Python re-implementation of the spec."""
+    wd = wd or workdir()
+    mod = 'Gen_' + name
+    out = os.path.join(wd, mod + '.ndjson')
+    text = ('---- MODULE %s ----\nEXTENDS %s, Json, IOUtils\n%s\n'
+            'GenRows == %s\nASSUME ndJsonSerialize(IOEnv.OUT, SetToSeq(GenRows))\n'
+            'VARIABLE gen_v\nGenInit == gen_v = 0\nGenNext == UNCHANGED gen_v\n====\n') % (mod, extends, defs, expr)
+    with open(os.path.join(wd, mod + '.tla'), 'w') as f:
+        f.write(text)
+    r = run(mod, 'INIT GenInit\nNEXT GenNext\n', wd=wd, workers=1, coverage=False, env={'OUT': out},
+            timeout=timeout, heap=heap)
+    if r.errors or r.violation or not os.path.exists(out):
+        raise TlcError('oracle table %s failed: %s\n%s' % (name, r.errors[:2], r.out[-2500:]))
+    rows = ndjson(out)
+    r.rows = rows
+    return r
